@@ -41,17 +41,65 @@ fn pat(tag: u64, len: usize) -> Vec<u8> {
     (0..len as u64).map(|i| pat_byte(tag, i)).collect()
 }
 
+/// body of the JSON entry points: a JSON string `"…"` of `size` bytes in all
+fn json_byte(tag: u64, i: u64, size: u64) -> u8 {
+    if i == 0 || i + 1 == size { b'"' } else { b'a' + ((tag + i) % 26) as u8 }
+}
+fn body_byte(kind: char, tag: u64, i: u64, size: u64) -> u8 {
+    if is_json(kind) { json_byte(tag, i, size) } else { pat_byte(tag, i) }
+}
+fn body_of(kind: char, tag: u64, size: usize) -> Vec<u8> {
+    (0..size as u64).map(|i| body_byte(kind, tag, i, size as u64)).collect()
+}
+/// the string whose JSON encoding is `body_of(json kind, tag, size)`
+fn json_string(tag: u64, size: usize) -> String {
+    let b = body_of('j', tag, size);
+    String::from_utf8_lossy(&b[1..size - 1]).to_string()
+}
+fn qchar(tag: u64, i: u64) -> u8 {
+    let c = ((tag * 7 + i + i / 61) % 36) as u8;
+    if c < 26 { b'a' + c } else { b'0' + (c - 26) }
+}
+/// `<prefix><tag>` or, when `qlen` is larger, that followed by `/` and pattern characters up to `qlen` bytes
+fn query_of(prefix: &str, tag: usize, qlen: usize) -> Vec<u8> {
+    let mut q = format!("{}{}", prefix, tag).into_bytes();
+    if qlen > q.len() {
+        q.push(b'/');
+        while q.len() < qlen {
+            let i = q.len() as u64;
+            q.push(qchar(tag as u64, i));
+        }
+    }
+    q
+}
+
+/// entry points used for "the next call" after the fault (clients)
+const FOLLOW: &str = "tTjJyYbmfF";
+fn is_follow(k: char) -> bool {
+    FOLLOW.contains(k)
+}
+fn is_json(k: char) -> bool {
+    "jJyYb".contains(k)
+}
+
 #[derive(Clone, Debug)]
 struct Wr {
-    /// c call, n notify, t notify issued after the fault (clients); r request, q notify-request,
-    /// p pushed notify (servers)
+    /// clients: c call, n notify (issued concurrently before the fault); issued one after the other once
+    /// the fault happened: t notify_with_formats, T call_with_formats, j notify_json, J call_json,
+    /// y notify_typed_json, Y call_typed_json, b batch_json (all b's of a script in one batch),
+    /// m call_message (empty body), f forward_message(notify), F forward_message(request) (async client).
+    /// servers: r request, q notify-request, p pushed notify (WebSocket server)
     kind: char,
     size: usize,
+    /// query length (0 = the short `/x/<tag>`); longer queries are padded with pattern characters
+    qlen: usize,
 }
 
 /// One frame the endpoint may legitimately put on the wire.
 struct Exp {
     tag: usize,
+    kind: char,
+    bfmt: u16,
     query: Vec<u8>,
     size: usize,
     notify: u8,
@@ -73,7 +121,7 @@ impl Exp {
             query_length: self.query.len() as u64,
             body_length: self.size as u64,
             query_format: 1,
-            body_format: 0,
+            body_format: self.bfmt,
             ec: 0,
         }
         .encode()
@@ -92,7 +140,7 @@ impl Exp {
             } else if i < 48 + q {
                 self.query[i - 48]
             } else {
-                pat_byte(self.tag as u64, (i - 48 - q) as u64)
+                body_byte(self.kind, self.tag as u64, (i - 48 - q) as u64, self.size as u64)
             };
             if s[i] != e {
                 return i;
@@ -106,14 +154,18 @@ fn expected_frames(ep: usize, ws: &[Wr]) -> Vec<Exp> {
     let mut v = Vec::new();
     for (tag, w) in ws.iter().enumerate() {
         let e = match (ep, w.kind) {
-            (0..=2, 'c') => Some((format!("/t/{}", tag), 0u8, None)),
-            (0..=2, 'n') | (0..=2, 't') => Some((format!("/t/{}", tag), 1, None)),
-            (3..=5, 'r') => Some((format!("/g/{}", tag), 0, Some(1000 + tag as u64))),
-            (5, 'p') => Some((format!("/p/{}", tag), 1, Some(0))),
+            (0..=2, 'c') | (0..=2, 'T') | (0..=2, 'm') => Some(("/t/", 0u8, None, 0u16)),
+            (0..=2, 'n') | (0..=2, 't') => Some(("/t/", 1, None, 0)),
+            (0..=2, 'j') | (0..=2, 'y') => Some(("/t/", 1, None, 2)),
+            (0..=2, 'J') | (0..=2, 'Y') | (0..=2, 'b') => Some(("/t/", 0, None, 2)),
+            (1, 'f') => Some(("/t/", 1, Some(5000 + tag as u64), 0)),
+            (1, 'F') => Some(("/t/", 0, Some(5000 + tag as u64), 0)),
+            (3..=5, 'r') => Some(("/g/", 0, Some(1000 + tag as u64), 0)),
+            (5, 'p') => Some(("/p/", 1, Some(0), 0)),
             _ => None, // 'q': a notify request, no response may appear
         };
-        if let Some((q, notify, id)) = e {
-            v.push(Exp { tag, query: q.into_bytes(), size: w.size, notify, id });
+        if let Some((pre, notify, id, bfmt)) = e {
+            v.push(Exp { tag, kind: w.kind, bfmt, query: query_of(pre, tag, w.qlen), size: w.size, notify, id });
         }
     }
     v
@@ -544,7 +596,7 @@ impl Script {
             Fault::Cancel(w) => ("cancel", *w),
             Fault::Drain(t) => ("drain", *t as i64),
         };
-        let ws: Vec<String> = self.ws.iter().map(|w| format!("{}{}", w.kind, w.size)).collect();
+        let ws: Vec<String> = self.ws.iter().map(|w| if w.qlen > 0 { format!("{}{}q{}", w.kind, w.size, w.qlen) } else { format!("{}{}", w.kind, w.size) }).collect();
         format!("torn {} {} buf {} rt {} chunk {} stall {} {} fault {} {} w {}", self.idx, self.ep, self.buf, self.rt, self.chunk, self.stall_at, self.stall_ms, fk, fa, ws.join(","))
     }
     fn parse(line: &str) -> Option<Script> {
@@ -563,7 +615,18 @@ impl Script {
         let mut ws = Vec::new();
         for t in w[16].split(',') {
             let kind = t.chars().next()?;
-            ws.push(Wr { kind, size: t[1..].parse().ok()? });
+            if !kind.is_ascii_alphabetic() {
+                return None;
+            }
+            let (sz, ql) = match t[1..].split_once('q') {
+                Some((a, b)) => (a, b.parse().ok()?),
+                None => (&t[1..], 0usize),
+            };
+            let size: usize = sz.parse().ok()?;
+            if (is_json(kind) && size < 2) || (kind == 'm' && size != 0) {
+                return None;
+            }
+            ws.push(Wr { kind, size, qlen: ql });
         }
         let ep: usize = w[2].parse().ok()?;
         if ep > 5 || ws.len() > 64 {
@@ -595,16 +658,27 @@ fn run_blocking_client(sc: &Script) -> Result<Capture, String> {
     }
     let g = Gate::new(sc.stall_at);
     let rd = reader_thread(sock.try_clone().unwrap(), g.clone(), sc.chunk);
-    let first: Vec<usize> = (0..sc.ws.len()).filter(|i| sc.ws[*i].kind != 't').collect();
-    let later: Vec<usize> = (0..sc.ws.len()).filter(|i| sc.ws[*i].kind == 't').collect();
+    let first: Vec<usize> = (0..sc.ws.len()).filter(|i| !is_follow(sc.ws[*i].kind)).collect();
+    let later: Vec<usize> = (0..sc.ws.len()).filter(|i| is_follow(sc.ws[*i].kind)).collect();
     let done = Arc::new(AtomicUsize::new(0));
     let errs = Arc::new(AtomicUsize::new(0));
     let barrier = Arc::new(Barrier::new(first.len() + 1));
     let send = |client: &Client, tag: usize, w: &Wr| -> Result<(), RepeError> {
+        let path = String::from_utf8(query_of("/t/", tag, w.qlen)).unwrap();
+        let to = Duration::from_millis(if w.kind == 'c' { 150 } else { 60 });
+        if is_json(w.kind) {
+            let s = json_string(tag as u64, w.size);
+            return match w.kind {
+                'j' => client.notify_json(&path, &serde_json::Value::String(s)),
+                'J' => client.call_json_with_timeout(&path, &serde_json::Value::String(s), to).map(|_| ()),
+                'y' => client.notify_typed_json(&path, &s),
+                _ => client.call_typed_json_with_timeout::<_, String, String>(&path, &s, to).map(|_| ()),
+            };
+        }
         let body = pat(tag as u64, w.size);
-        let path = format!("/t/{}", tag);
         match w.kind {
-            'c' => client.call_with_formats_and_timeout(&path, 1, Some(&body), 0, Duration::from_millis(150)).map(|_| ()),
+            'c' | 'T' => client.call_with_formats_and_timeout(&path, 1, Some(&body), 0, to).map(|_| ()),
+            'm' => client.call_message_with_timeout(&path, to).map(|_| ()),
             _ => client.notify_with_formats(&path, 1, Some(&body), 0),
         }
     };
@@ -626,13 +700,31 @@ fn run_blocking_client(sc: &Script) -> Result<Capture, String> {
         notes.push("writer-watchdog");
     }
     // "the next call": issued after the fault, peer reading again
+    let batch: Vec<(String, serde_json::Value)> = later
+        .iter()
+        .filter(|t| sc.ws[**t].kind == 'b')
+        .map(|&t| (String::from_utf8(query_of("/t/", t, sc.ws[t].qlen)).unwrap(), serde_json::Value::String(json_string(t as u64, sc.ws[t].size))))
+        .collect();
+    let mut batch_sent = false;
     for &tag in &later {
         let (client, w, done2) = (client.clone(), sc.ws[tag].clone(), Arc::new(AtomicBool::new(false)));
         let d = done2.clone();
-        std::thread::spawn(move || {
-            let _ = send(&client, tag, &w);
-            d.store(true, SeqCst);
-        });
+        if w.kind == 'b' {
+            if batch_sent {
+                continue;
+            }
+            batch_sent = true;
+            let batch = batch.clone();
+            std::thread::spawn(move || {
+                let _ = client.batch_json_with_timeout(batch, Duration::from_millis(60));
+                d.store(true, SeqCst);
+            });
+        } else {
+            std::thread::spawn(move || {
+                let _ = send(&client, tag, &w);
+                d.store(true, SeqCst);
+            });
+        }
         if !wait_until(|| done2.load(SeqCst), WATCHDOG) {
             notes.push("writer-watchdog");
         }
@@ -657,14 +749,42 @@ enum AnyClient {
 }
 impl AnyClient {
     async fn send(&self, tag: usize, w: &Wr) -> Result<(), RepeError> {
+        let path = String::from_utf8(query_of("/t/", tag, w.qlen)).unwrap();
+        let to = Duration::from_millis(if w.kind == 'c' { 150 } else { 60 });
+        if is_json(w.kind) {
+            let s = json_string(tag as u64, w.size);
+            let v = serde_json::Value::String(s.clone());
+            return match (self, w.kind) {
+                (AnyClient::A(c), 'j') => c.notify_json(&path, &v).await,
+                (AnyClient::A(c), 'J') => c.call_json_with_timeout(&path, &v, to).await.map(|_| ()),
+                (AnyClient::A(c), 'y') => c.notify_typed_json(&path, &s).await,
+                (AnyClient::A(c), _) => c.call_typed_json_with_timeout::<_, String, String>(&path, &s, to).await.map(|_| ()),
+                (AnyClient::W(c), 'j') => c.notify_json(&path, &v).await,
+                (AnyClient::W(c), 'J') => c.call_json_with_timeout(&path, &v, to).await.map(|_| ()),
+                (AnyClient::W(c), 'y') => c.notify_typed_json(&path, &s).await,
+                (AnyClient::W(c), _) => c.call_typed_json_with_timeout::<_, String, String>(&path, &s, to).await.map(|_| ()),
+            };
+        }
         let body = pat(tag as u64, w.size);
-        let path = format!("/t/{}", tag);
-        let to = Duration::from_millis(150);
         match (self, w.kind) {
-            (AnyClient::A(c), 'c') => c.call_with_formats_and_timeout(&path, 1, Some(&body), 0, to).await.map(|_| ()),
+            (AnyClient::A(c), 'f') | (AnyClient::A(c), 'F') => {
+                // a relay: a prebuilt message handed to the connection as it is
+                let m = Message::builder().id(5000 + tag as u64).notify(w.kind == 'f').query_str(&path).query_format_code(1).body_bytes(body).body_format_code(0).build();
+                c.forward_message_with_timeout(&m, to).await.map(|_| ())
+            }
+            (AnyClient::A(c), 'c') | (AnyClient::A(c), 'T') => c.call_with_formats_and_timeout(&path, 1, Some(&body), 0, to).await.map(|_| ()),
+            (AnyClient::A(c), 'm') => c.call_message_with_timeout(&path, to).await.map(|_| ()),
             (AnyClient::A(c), _) => c.notify_with_formats(&path, 1, Some(&body), 0).await,
-            (AnyClient::W(c), 'c') => c.call_with_formats_and_timeout(&path, 1, Some(&body), 0, to).await.map(|_| ()),
+            (AnyClient::W(c), 'c') | (AnyClient::W(c), 'T') => c.call_with_formats_and_timeout(&path, 1, Some(&body), 0, to).await.map(|_| ()),
+            (AnyClient::W(c), 'm') => c.call_message_with_timeout(&path, to).await.map(|_| ()),
             (AnyClient::W(c), _) => c.notify_with_formats(&path, 1, Some(&body), 0).await,
+        }
+    }
+    async fn batch(&self, reqs: Vec<(String, serde_json::Value)>) {
+        let to = Duration::from_millis(60);
+        match self {
+            AnyClient::A(c) => drop(c.batch_json_with_timeout(reqs, to).await),
+            AnyClient::W(c) => drop(c.batch_json_with_timeout(reqs, to).await),
         }
     }
 }
@@ -702,8 +822,8 @@ fn run_async_client(sc: &Script) -> Result<Capture, String> {
             notes.push("sndbuf-not-set");
         }
         let rd = reader_thread(sock.try_clone().unwrap(), g.clone(), sc.chunk);
-        let first: Vec<usize> = (0..sc.ws.len()).filter(|i| sc.ws[*i].kind != 't').collect();
-        let later: Vec<usize> = (0..sc.ws.len()).filter(|i| sc.ws[*i].kind == 't').collect();
+        let first: Vec<usize> = (0..sc.ws.len()).filter(|i| !is_follow(sc.ws[*i].kind)).collect();
+        let later: Vec<usize> = (0..sc.ws.len()).filter(|i| is_follow(sc.ws[*i].kind)).collect();
         let done = Arc::new(AtomicUsize::new(0));
         let mut handles = Vec::new();
         for &tag in &first {
@@ -741,8 +861,23 @@ fn run_async_client(sc: &Script) -> Result<Capture, String> {
                 notes.push("writer-watchdog");
             }
         }
+        let batch: Vec<(String, serde_json::Value)> = later
+            .iter()
+            .filter(|t| sc.ws[**t].kind == 'b')
+            .map(|&t| (String::from_utf8(query_of("/t/", t, sc.ws[t].qlen)).unwrap(), serde_json::Value::String(json_string(t as u64, sc.ws[t].size))))
+            .collect();
+        let mut batch_sent = false;
         for &tag in &later {
-            if tokio::time::timeout(WATCHDOG, client.send(tag, &sc.ws[tag])).await.is_err() {
+            let ok = if sc.ws[tag].kind == 'b' {
+                if batch_sent {
+                    continue;
+                }
+                batch_sent = true;
+                tokio::time::timeout(WATCHDOG, client.batch(batch.clone())).await.is_ok()
+            } else {
+                tokio::time::timeout(WATCHDOG, client.send(tag, &sc.ws[tag])).await.is_ok()
+            };
+            if !ok {
                 notes.push("writer-watchdog");
             }
         }
@@ -783,12 +918,37 @@ impl HandlerErased for Gen {
     }
 }
 
-fn gen_router() -> Router {
+/// routes `/g/<tag>` for every tag plus the long paths this script addresses
+fn gen_router(sc: Option<&Script>) -> Router {
     let mut r = Router::new();
     for tag in 0..64u64 {
         r = r.with_erased_handler(&format!("/g/{}", tag), Arc::new(Gen(tag)));
     }
+    if let Some(sc) = sc {
+        for (tag, w) in sc.ws.iter().enumerate().filter(|(_, w)| w.qlen > 0 && (w.kind == 'r' || w.kind == 'q')) {
+            r = r.with_erased_handler(&String::from_utf8(query_of("/g/", tag, w.qlen)).unwrap(), Arc::new(Gen(tag as u64)));
+        }
+    }
     r
+}
+
+fn long_queries(sc: &Script) -> bool {
+    sc.ws.iter().any(|w| w.qlen > 0)
+}
+
+/// the peer's requests go out on their own thread: with multi-MiB paths they do not fit the socket
+/// buffers, and the server stops reading while it is blocked writing to the stalled peer
+fn send_requests(mut sock: TcpStream, bytes: Vec<u8>, shutdown: bool) -> Arc<AtomicBool> {
+    let done = Arc::new(AtomicBool::new(false));
+    let d = done.clone();
+    std::thread::spawn(move || {
+        let _ = sock.write_all(&bytes);
+        if shutdown {
+            let _ = sock.shutdown(Shutdown::Write);
+        }
+        d.store(true, SeqCst);
+    });
+    done
 }
 
 fn requests(sc: &Script) -> Vec<Vec<u8>> {
@@ -796,7 +956,7 @@ fn requests(sc: &Script) -> Vec<Vec<u8>> {
         .iter()
         .enumerate()
         .filter(|(_, w)| w.kind == 'r' || w.kind == 'q')
-        .map(|(tag, w)| RawFrame::request(1000 + tag as u64, w.kind == 'q', 1, format!("/g/{}", tag).as_bytes(), 0, &(w.size as u64).to_le_bytes()).to_vec())
+        .map(|(tag, w)| RawFrame::request(1000 + tag as u64, w.kind == 'q', 1, &query_of("/g/", tag, w.qlen), 0, &(w.size as u64).to_le_bytes()).to_vec())
         .collect()
 }
 
@@ -807,12 +967,22 @@ fn blocking_server_addr(buf: usize, wt: Option<u64>) -> SocketAddr {
     let m = m.get_or_insert_with(HashMap::new);
     *m.entry((buf, wt)).or_insert_with(|| {
         let (l, addr) = listener(0, buf);
-        let server = Server::new(gen_router()).write_timeout(wt.map(Duration::from_millis));
+        let server = Server::new(gen_router(None)).write_timeout(wt.map(Duration::from_millis));
         std::thread::spawn(move || {
             let _ = server.serve(l);
         });
         addr
     })
+}
+
+/// a script with long paths needs its own routes, hence its own (leaked) blocking server
+fn blocking_server_for(sc: &Script, wt: Option<u64>) -> SocketAddr {
+    let (l, addr) = listener(0, sc.buf);
+    let server = Server::new(gen_router(Some(sc))).write_timeout(wt.map(Duration::from_millis));
+    std::thread::spawn(move || {
+        let _ = server.serve(l);
+    });
+    addr
 }
 
 fn run_tcp_server(sc: &Script) -> Result<Capture, String> {
@@ -823,12 +993,12 @@ fn run_tcp_server(sc: &Script) -> Result<Capture, String> {
     };
     let mut rt = None;
     let addr = if sc.ep == 3 {
-        blocking_server_addr(sc.buf, wt)
+        if long_queries(sc) { blocking_server_for(sc, wt) } else { blocking_server_addr(sc.buf, wt) }
     } else {
         let (l, addr) = listener(0, sc.buf);
         l.set_nonblocking(true).map_err(|e| e.to_string())?;
         let r = runtime(sc.rt);
-        let server = AsyncServer::new(gen_router()).write_timeout(wt.map(Duration::from_millis));
+        let server = AsyncServer::new(gen_router(Some(sc))).write_timeout(wt.map(Duration::from_millis));
         r.spawn(async move {
             if let Ok(l) = tokio::net::TcpListener::from_std(l) {
                 let _ = server.serve(l).await;
@@ -837,12 +1007,11 @@ fn run_tcp_server(sc: &Script) -> Result<Capture, String> {
         rt = Some(r);
         addr
     };
-    let mut sock = connect_small(addr, sc.buf).map_err(|e| format!("connect: {e}"))?;
+    let sock = connect_small(addr, sc.buf).map_err(|e| format!("connect: {e}"))?;
     let g = Gate::new(sc.stall_at);
     let rd = reader_thread(sock.try_clone().unwrap(), g.clone(), sc.chunk);
     let all: Vec<u8> = requests(sc).concat();
-    sock.write_all(&all).map_err(|e| format!("send requests: {e}"))?;
-    let _ = sock.shutdown(Shutdown::Write);
+    let _sent = send_requests(sock.try_clone().unwrap(), all, true);
     wait_until(|| g.at_stall(sc.stall_at), WATCHDOG);
     std::thread::sleep(Duration::from_millis(sc.stall_ms));
     g.open();
@@ -864,7 +1033,7 @@ fn run_ws_server(sc: &Script) -> Result<Capture, String> {
     let rt = runtime(sc.rt);
     let reg = PeerRegistry::new();
     let limits = WebSocketLimits::default().with_assumed_peer_frame_limit(Some(64 << 20));
-    let server = WebSocketServer::new(gen_router()).with_peer_registry(reg.clone()).with_outbound_capacity(16).with_limits(limits);
+    let server = WebSocketServer::new(gen_router(Some(sc))).with_peer_registry(reg.clone()).with_outbound_capacity(16).with_limits(limits);
     let (sd_tx, sd_rx) = tokio::sync::oneshot::channel::<()>();
     let drain = match sc.fault {
         Fault::Drain(t) => Some(t),
@@ -898,13 +1067,14 @@ fn run_ws_server(sc: &Script) -> Result<Capture, String> {
     let barrier = Arc::new(Barrier::new(pushers.len() + 1));
     for &tag in &pushers {
         let (reg, size, done, stop, barrier) = (reg.clone(), sc.ws[tag].size, done.clone(), stop.clone(), barrier.clone());
+        let method = String::from_utf8(query_of("/p/", tag, sc.ws[tag].qlen)).unwrap();
         std::thread::spawn(move || {
             let peer = reg.peers().into_iter().next();
             barrier.wait();
             if let Some(peer) = peer {
                 let t0 = Instant::now();
                 loop {
-                    match peer.send_notify(&format!("/p/{}", tag), NotifyBody::Raw(pat(tag as u64, size), BodyFormat::RawBinary)) {
+                    match peer.send_notify(&method, NotifyBody::Raw(pat(tag as u64, size), BodyFormat::RawBinary)) {
                         Ok(()) | Err(PeerSendError::Disconnected) => break,
                         Err(_) => {
                             // channel full: the embedder retries
@@ -921,7 +1091,7 @@ fn run_ws_server(sc: &Script) -> Result<Capture, String> {
     }
     let reqs: Vec<u8> = requests(sc).iter().map(|f| ws_frame(2, f, true)).collect::<Vec<_>>().concat();
     barrier.wait();
-    sock.write_all(&reqs).map_err(|e| format!("send requests: {e}"))?;
+    let sent = send_requests(sock.try_clone().unwrap(), reqs, false);
     wait_until(|| g.at_stall(sc.stall_at), WATCHDOG);
     if drain.is_some() {
         let _ = sd_tx.send(());
@@ -936,6 +1106,9 @@ fn run_ws_server(sc: &Script) -> Result<Capture, String> {
     }
     stop.store(true, SeqCst);
     // let the responses and pushes drain, then close from the peer's side
+    if !wait_until(|| sent.load(SeqCst) || g.eof.load(SeqCst), WATCHDOG) {
+        notes.push("request-watchdog");
+    }
     wait_quiet(&g);
     let _ = sock.write_all(&ws_frame(8, &1000u16.to_be_bytes(), true));
     let _ = sock.shutdown(Shutdown::Write);
@@ -970,6 +1143,10 @@ fn exec(out: &mut Out, line: &str) -> (String, String, bool) {
     out.count(&format!("fault.{}.{}", ep, fault_name(&sc.fault)));
     out.count(&format!("writers.{}", match sc.ws.len() { 0..=1 => "1", 2..=4 => "2-4", 5..=16 => "5-16", _ => "17-32+" }));
     for w in &sc.ws {
+        out.count(&format!("kind.{}", w.kind));
+        if w.qlen > 0 {
+            out.count(&format!("query.{}", match w.qlen { 0..=8143 => "<8K", 8144..=131071 => "<128K", 131072..=1048575 => "<1M", _ => ">=1M" }));
+        }
         out.count(&format!("size.{}", match w.size { 0 => "0", 1..=8143 => "<8K", 8144..=8192 => "8K-edge", 8193..=131071 => "<128K", 131072..=1048575 => "<1M", 1048576..=4194304 => "1M-4M", _ => ">4M" }));
     }
     let cap = match sc.ep {
@@ -1080,9 +1257,14 @@ fn gen_scripts(r: &mut Rng, thorough: bool) -> Vec<Script> {
         // after a cancel, "the next calls" are issued
         if let Fault::Cancel(_) = s.fault {
             let n = s.ws.len();
-            if n < 60 {
-                s.ws.push(Wr { kind: 't', size: 300 });
-                s.ws.push(Wr { kind: 't', size: 70000 });
+            if n < 56 {
+                // "the next calls", through different entry points (rotated so that each comes first somewhere)
+                let kinds: Vec<char> = FOLLOW.chars().filter(|c| s.ep == 1 || (*c != 'f' && *c != 'F')).collect();
+                for j in 0..4 {
+                    let kd = kinds[(k + j * 3) % kinds.len()];
+                    let size = if kd == 'm' { 0 } else if j % 2 == 0 { 300 } else { 70000 };
+                    s.ws.push(Wr { kind: kd, size, qlen: 0 });
+                }
             }
         }
         v.push(s);
@@ -1090,27 +1272,27 @@ fn gen_scripts(r: &mut Rng, thorough: bool) -> Vec<Script> {
     for ep in 0..6usize {
         let big = 1usize << 20;
         // 1. many writers, small and medium frames, peer stalls from the first byte, tiny reads
-        let ws: Vec<Wr> = (0..32).map(|_| Wr { kind: kinds_for(ep, r), size: pick_size(r, 70000) }).collect();
+        let ws: Vec<Wr> = (0..32).map(|_| Wr { kind: kinds_for(ep, r), size: pick_size(r, 70000), qlen: 0 }).collect();
         push(&mut v, Script { idx: String::new(), ep, buf: small, rt: 2, chunk: 997, stall_at: 0, stall_ms: 120, fault: Fault::None, ws });
         // 2. sizes straddling the 8 KiB BufWriter and the 128 KiB tungstenite buffer, one 1 MiB frame, stall inside
-        let mut ws: Vec<Wr> = [8143usize, 8144, 8145, 8192, 131017, 131072, 131073].iter().map(|s| Wr { kind: kinds_for(ep, r), size: *s }).collect();
-        ws.push(Wr { kind: kinds_for(ep, r), size: big + 1 });
+        let mut ws: Vec<Wr> = [8143usize, 8144, 8145, 8192, 131017, 131072, 131073].iter().map(|s| Wr { kind: kinds_for(ep, r), size: *s, qlen: 0 }).collect();
+        ws.push(Wr { kind: kinds_for(ep, r), size: big + 1, qlen: 0 });
         r.shuffle(&mut ws);
         push(&mut v, Script { idx: String::new(), ep, buf: 65536, rt: 2, chunk: 65536, stall_at: r.below(600000), stall_ms: 150, fault: Fault::None, ws });
         // 3. a few multi-MiB frames through default kernel buffers
-        let ws: Vec<Wr> = (0..3).map(|_| Wr { kind: kinds_for(ep, r), size: big + r.below(2 * big as u64) as usize }).collect();
+        let ws: Vec<Wr> = (0..3).map(|_| Wr { kind: kinds_for(ep, r), size: big + r.below(2 * big as u64) as usize, qlen: 0 }).collect();
         push(&mut v, Script { idx: String::new(), ep, buf: 0, rt: 1, chunk: 65536, stall_at: r.below(big as u64), stall_ms: 80, fault: Fault::None, ws });
         // 4. the fault while a frame much larger than every buffer is being written
-        let mut ws = vec![Wr { kind: kinds_for(ep, r), size: big }, Wr { kind: kinds_for(ep, r), size: 100000 }];
-        ws.extend((0..4).map(|_| Wr { kind: kinds_for(ep, r), size: pick_size(r, 9000) }));
+        let mut ws = vec![Wr { kind: kinds_for(ep, r), size: big, qlen: 0 }, Wr { kind: kinds_for(ep, r), size: 100000, qlen: 0 }];
+        ws.extend((0..4).map(|_| Wr { kind: kinds_for(ep, r), size: pick_size(r, 9000), qlen: 0 }));
         if ep == 5 {
             ws[0].kind = 'r';
         }
         push(&mut v, Script { idx: String::new(), ep, buf: small, rt: 2, chunk: 65536, stall_at: 0, stall_ms: 450, fault: fault_for(ep, r), ws });
         // 5. the fault after some whole frames went through
-        let mut ws: Vec<Wr> = (0..3).map(|_| Wr { kind: kinds_for(ep, r), size: pick_size(r, 3000) }).collect();
-        ws.extend((0..3).map(|_| Wr { kind: kinds_for(ep, r), size: 300000 + r.below(400000) as usize }));
-        ws.extend((0..3).map(|_| Wr { kind: kinds_for(ep, r), size: pick_size(r, 20000) }));
+        let mut ws: Vec<Wr> = (0..3).map(|_| Wr { kind: kinds_for(ep, r), size: pick_size(r, 3000), qlen: 0 }).collect();
+        ws.extend((0..3).map(|_| Wr { kind: kinds_for(ep, r), size: 300000 + r.below(400000) as usize, qlen: 0 }));
+        ws.extend((0..3).map(|_| Wr { kind: kinds_for(ep, r), size: pick_size(r, 20000), qlen: 0 }));
         // (clients: only the largest call is abandoned, the other callers carry on)
         let fault = match fault_for(ep, r) {
             Fault::Cancel(_) => Fault::Cancel(argmax(&ws)),
@@ -1118,18 +1300,62 @@ fn gen_scripts(r: &mut Rng, thorough: bool) -> Vec<Script> {
         };
         push(&mut v, Script { idx: String::new(), ep, buf: small, rt: 1, chunk: 4096, stall_at: 2000 + r.below(500000), stall_ms: 400, fault, ws });
         // 6. the fault with 16 medium writers
-        let ws: Vec<Wr> = (0..16).map(|_| Wr { kind: kinds_for(ep, r), size: 60000 + r.below(200000) as usize }).collect();
+        let ws: Vec<Wr> = (0..16).map(|_| Wr { kind: kinds_for(ep, r), size: 60000 + r.below(200000) as usize, qlen: 0 }).collect();
         push(&mut v, Script { idx: String::new(), ep, buf: small, rt: 4, chunk: 65536, stall_at: r.below(300000), stall_ms: 400, fault: fault_for(ep, r), ws });
         // 7. the fault configured but every frame fits the buffers (nothing may be torn)
-        let ws: Vec<Wr> = (0..8).map(|_| Wr { kind: kinds_for(ep, r), size: pick_size(r, 900) }).collect();
+        let ws: Vec<Wr> = (0..8).map(|_| Wr { kind: kinds_for(ep, r), size: pick_size(r, 900), qlen: 0 }).collect();
         push(&mut v, Script { idx: String::new(), ep, buf: 65536, rt: 2, chunk: 100, stall_at: 0, stall_ms: 150, fault: fault_for(ep, r), ws });
+        // 8. clients: one frame far larger than the buffers is certainly in progress when the fault hits;
+        //    the next frame is offered through each emission entry point in turn (first in line), then the others
+        if ep <= 2 {
+            let all: Vec<char> = FOLLOW.chars().filter(|c| ep == 1 || (*c != 'f' && *c != 'F')).collect();
+            let firsts: Vec<char> = if ep == 2 && !thorough { vec!['t', 'J', 'b'] } else { all.clone() };
+            for (j, kd) in firsts.iter().enumerate() {
+                let mut ws = vec![Wr { kind: 'n', size: 300000 + 1000 * j, qlen: 0 }];
+                let mut order = vec![*kd];
+                order.extend(all.iter().filter(|c| *c != kd).cycle().skip(j).take(3));
+                for (x, c) in order.iter().enumerate() {
+                    let size = if *c == 'm' { 0 } else if x % 2 == 0 { 200 + 13 * j } else { 20000 };
+                    ws.push(Wr { kind: *c, size, qlen: if x == 1 { 300 } else { 0 } });
+                }
+                let (fault, stall_ms) = if ep == 0 { (Fault::WTimeout(30), 100) } else { (Fault::Cancel(-1), 40) };
+                push(&mut v, Script { idx: String::new(), ep, buf: small, rt: 2, chunk: 65536, stall_at: 0, stall_ms, fault, ws });
+            }
+        }
+        if ep == 1 {
+            // a relayed notify right behind an abandoned call, stall point inside the big frame
+            let ws = vec![Wr { kind: 'c', size: 500000, qlen: 0 }, Wr { kind: 'f', size: 100, qlen: 0 }, Wr { kind: 't', size: 300, qlen: 0 }, Wr { kind: 'F', size: 20000, qlen: 0 }];
+            push(&mut v, Script { idx: String::new(), ep, buf: small, rt: 1, chunk: 4096, stall_at: 6000, stall_ms: 60, fault: Fault::Cancel(0), ws });
+        }
+        // 9. servers: echoed queries larger than the send buffer (the response's header+query alone exceed
+        //    what the socket takes in one write), no stall at all
+        if ep >= 3 {
+            let qmax = if thorough { 6 << 20 } else { 1 << 20 };
+            let ws = vec![
+                Wr { kind: 'r', size: 5000, qlen: 65536 },
+                Wr { kind: 'r', size: 16, qlen: 200000 + r.below(100000) as usize },
+                Wr { kind: 'r', size: 100, qlen: 0 },
+                Wr { kind: 'r', size: 9000, qlen: qmax },
+                Wr { kind: if ep == 5 { 'p' } else { 'r' }, size: 70000, qlen: 3000 },
+                Wr { kind: 'r', size: 0, qlen: 70001 },
+                Wr { kind: 'r', size: 20000, qlen: 8192 },
+            ];
+            push(&mut v, Script { idx: String::new(), ep, buf: small, rt: 2, chunk: 65536, stall_at: 0, stall_ms: 0, fault: Fault::None, ws: ws.clone() });
+            push(&mut v, Script { idx: String::new(), ep, buf: if thorough { 0 } else { 65536 }, rt: 1, chunk: 65536, stall_at: 100000, stall_ms: 50, fault: Fault::None, ws });
+            // 10. the peer stalls until the send buffer is full, then drains in small reads while responses
+            //     of 8-30 KiB with moderately long queries are written: short writes end anywhere in a frame
+            for buf in [small, 16384] {
+                let ws: Vec<Wr> = (0..24).map(|_| Wr { kind: 'r', size: 4000 + r.below(22000) as usize, qlen: 200 + r.below(7000) as usize }).collect();
+                push(&mut v, Script { idx: String::new(), ep, buf, rt: 2, chunk: 700 + r.below(3000) as usize, stall_at: r.below(30000), stall_ms: 60, fault: Fault::None, ws });
+            }
+        }
         // random scripts
         let n_random = if thorough { 60 } else { 3 };
         for _ in 0..n_random {
             let n = 1 + r.below(32) as usize;
             let budget: usize = if thorough { 6 << 20 } else { 2 << 20 };
-            let ws: Vec<Wr> = (0..n).map(|_| Wr { kind: kinds_for(ep, r), size: pick_size(r, budget / n) }).collect();
-            let total: u64 = ws.iter().map(|w| w.size as u64 + 60).sum();
+            let ws: Vec<Wr> = (0..n).map(|_| Wr { kind: kinds_for(ep, r), size: pick_size(r, budget / n), qlen: if r.chance(1, 4) { 60 + pick_size(r, (budget / n).min(300000)) } else { 0 } }).collect();
+            let total: u64 = ws.iter().map(|w| (w.size + w.qlen) as u64 + 60).sum();
             let fault = match if r.chance(1, 2) { fault_for(ep, r) } else { Fault::None } {
                 Fault::Cancel(_) if r.chance(1, 2) => Fault::Cancel(argmax(&ws)),
                 f => f,
@@ -1140,14 +1366,14 @@ fn gen_scripts(r: &mut Rng, thorough: bool) -> Vec<Script> {
         if thorough {
             // 32 MiB frames through default buffers (the stall point is past the kernel's ~4 MB of slack)
             let huge = 32usize << 20;
-            let ws = vec![Wr { kind: kinds_for(ep, r), size: 5000 }, Wr { kind: if ep >= 3 { 'r' } else { kinds_for(ep, r) }, size: huge }, Wr { kind: kinds_for(ep, r), size: 70000 }];
+            let ws = vec![Wr { kind: kinds_for(ep, r), size: 5000, qlen: 0 }, Wr { kind: if ep >= 3 { 'r' } else { kinds_for(ep, r) }, size: huge, qlen: 0 }, Wr { kind: kinds_for(ep, r), size: 70000, qlen: 0 }];
             push(&mut v, Script { idx: String::new(), ep, buf: 0, rt: 2, chunk: 65536, stall_at: 1 << 20, stall_ms: 400, fault: fault_for(ep, r), ws: ws.clone() });
             push(&mut v, Script { idx: String::new(), ep, buf: 0, rt: 2, chunk: 65536, stall_at: 9 << 20, stall_ms: 200, fault: Fault::None, ws });
         }
     }
     // tiny reads are only affordable on small streams
     for s in v.iter_mut() {
-        let total: usize = s.ws.iter().map(|w| w.size).sum();
+        let total: usize = s.ws.iter().map(|w| w.size + w.qlen).sum();
         if s.chunk < 4096 && total > (1 << 20) {
             s.chunk = 4096;
         }
@@ -1163,7 +1389,7 @@ fn main() {
     quiet_panics();
     let mut out = Out::new(&args.out);
     let mut rng = Rng::new(args.seed);
-    out.rule = "scripts = endpoint x buffers x writers (kind,size) x stall point/duration x fault (write timeout | cancel in-progress calls | graceful-drain deadline | none); sizes biased to 0,1,47/48, 8 KiB BufWriter edge (8143-8145 = 8192-48-1.., 8192/8193), 64 KiB, 128 KiB tungstenite buffer edge, 1 MiB(+1), multi-MiB; 7 fixed shapes + random ones per endpoint. Distinct by script line; non-trivial = the captured stream holds at least two whole frames or a torn tail".into();
+    out.rule = "scripts = endpoint x buffers x writers (kind,size,query length) x stall point/duration x fault (write timeout | cancel in-progress calls | graceful-drain deadline | none); sizes biased to 0,1,47/48, 8 KiB BufWriter edge (8143-8145 = 8192-48-1.., 8192/8193), 64 KiB, 128 KiB tungstenite buffer edge, 1 MiB(+1), multi-MiB; query lengths 0 (short path) .. 1 MiB (6 MiB thorough); after the fault the clients' next frames go through every emission entry point in turn (notify_*/call_*/batch_json/call_message/forward_message); 10 fixed shapes + random ones per endpoint. Distinct by script line; non-trivial = the captured stream holds at least two whole frames or a torn tail".into();
     out.flush_each = true;
     let lines: Vec<String> = match args.replay_ops() {
         Some(ops) => ops.into_iter().filter(|l| l.starts_with("torn ")).collect(),
